@@ -76,6 +76,17 @@ class SetCash(object):
         return True
 
 
+class FlowNoUpdate(object):
+    """user-style algo: books a capital flow with update=False and relies on the backtest's closing update (lazy-update protocol)"""
+
+    def __init__(self, amount):
+        self.amount = amount
+
+    def __call__(self, target):
+        target.adjust(self.amount, update=False)
+        return True
+
+
 class Const(object):
     def __init__(self, v):
         self.v = v
@@ -251,6 +262,8 @@ def mk_algo(bt, a, spec, frames):
         return A.PrintRisk(p.get("fmt", ""))
     if name == "SetCash":
         return SetCash(p["c"])
+    if name == "FlowNoUpdate":
+        return FlowNoUpdate(p["amount"])
     if name == "Const":
         return Const(p["v"])
     if name == "Probe":
@@ -289,11 +302,21 @@ def mk_node(bt, n, spec, frames):
         else:
             children = built
     if kind == "StrategyBase":
-        return bt.core.StrategyBase(n["name"], children=children)
-    algos = [mk_algo(bt, a, spec, frames) for a in n.get("algos", [])]
-    if kind == "FixedIncomeStrategy":
-        return bt.core.FixedIncomeStrategy(n["name"], algos=algos, children=children)
-    return bt.core.Strategy(n["name"], algos=algos, children=children)
+        node = bt.core.StrategyBase(n["name"], children=children)
+    else:
+        algos = [mk_algo(bt, a, spec, frames) for a in n.get("algos", [])]
+        if kind == "FixedIncomeStrategy":
+            node = bt.core.FixedIncomeStrategy(n["name"], algos=algos, children=children)
+        else:
+            node = bt.core.Strategy(n["name"], algos=algos, children=children)
+    # sub-strategies attached after construction through the parent argument
+    for c in n.get("late") or []:
+        kids = [mk_node(bt, g, spec, frames) for g in c.get("children") or []] or None
+        if c.get("kind", "Strategy") == "StrategyBase":
+            bt.core.StrategyBase(c["name"], children=kids, parent=node)
+        else:
+            bt.core.Strategy(c["name"], algos=[mk_algo(bt, a, spec, frames) for a in c.get("algos", [])], children=kids, parent=node)
+    return node
 
 
 def mk_frames(spec):
